@@ -4,6 +4,8 @@ package c08
 
 import (
 	"fmt"
+	"io"
+	"net"
 	"os"
 	"path/filepath"
 	"regexp"
@@ -256,6 +258,217 @@ func runPattern(ctx *core.Ctx, bin string, pi int, p pattern, spin bool) {
 	}
 }
 
+// ackThenFile is the hook-free immediate oracle: once a reply has been READ by
+// the client, the command must already be in appendonly.aof (the reply is sent
+// after the write). It is applied to request shapes that take other paths
+// through the connection loop than a plain RESP SET: pipelines ending in QUIT,
+// large pipelines, HTTP / native / telnet transports, scripts, every write
+// command kind, JSON output mode, and values larger than the flush chunk.
+func ackThenFile(ctx *core.Ctx, bin string, round int) {
+	s, err := srv.Start(srv.Opts{Bin: bin})
+	if err != nil {
+		ctx.Inconclusive(err.Error())
+		return
+	}
+	defer s.Kill9()
+	n := 0
+	tokf := func() string { n++; return fmt.Sprintf("ZT%dx%dQ", round, n) }
+	inFile := func(tok string) bool {
+		b, err := os.ReadFile(s.AOFPath())
+		return err == nil && strings.Contains(string(b), tok)
+	}
+	readAll := func(c net.Conn) string {
+		c.SetReadDeadline(time.Now().Add(10 * time.Second))
+		b, _ := io.ReadAll(c)
+		return string(b)
+	}
+	type shape struct {
+		name string
+		run  func(tok string) (acked bool, err error)
+	}
+	dial := func() (net.Conn, error) { return net.DialTimeout("tcp", s.Addr(), 5*time.Second) }
+	respDo := func(pre [][]string, cmd ...string) func(string) (bool, error) {
+		return func(tok string) (bool, error) {
+			c, err := respc.Dial(s.Addr(), 5*time.Second)
+			if err != nil {
+				return false, err
+			}
+			defer c.Close()
+			c.Timeout = 60 * time.Second
+			for _, p := range pre {
+				pp := make([]string, len(p))
+				for i, a := range p {
+					pp[i] = strings.ReplaceAll(a, "@T", tok)
+				}
+				if _, err := c.Do(pp...); err != nil {
+					return false, err
+				}
+			}
+			args := make([]string, len(cmd))
+			for i, a := range cmd {
+				args[i] = strings.ReplaceAll(a, "@T", tok)
+			}
+			r, err := c.Do(args...)
+			if err != nil {
+				return false, err
+			}
+			return !r.IsErr() && !(r.Kind == '$' && r.Nil) && !(r.Kind == ':' && r.Int == 0), nil
+		}
+	}
+	big := func(n int) string { return strings.Repeat("v", n) }
+	shapes := []shape{
+		{"resp-set", respDo(nil, "SET", "p", "a", "STRING", "@T")},
+		{"resp-pipeline-quit", func(tok string) (bool, error) {
+			c, err := dial()
+			if err != nil {
+				return false, err
+			}
+			defer c.Close()
+			var b []byte
+			b = append(b, respc.Encode("SET", "p", "q1", "STRING", tok+"a")...)
+			b = append(b, respc.Encode("SET", "p", "q2", "STRING", tok)...)
+			b = append(b, respc.Encode("QUIT")...)
+			if _, err := c.Write(b); err != nil {
+				return false, err
+			}
+			out := readAll(c)
+			return strings.Count(out, "+OK") >= 3, nil
+		}},
+		{"resp-pipeline-60", func(tok string) (bool, error) {
+			c, err := respc.Dial(s.Addr(), 5*time.Second)
+			if err != nil {
+				return false, err
+			}
+			defer c.Close()
+			var b []byte
+			for i := 0; i < 59; i++ {
+				b = append(b, respc.Encode("SET", "p", "pl"+strconv.Itoa(i), "STRING", "x")...)
+			}
+			b = append(b, respc.Encode("SET", "p", "last", "STRING", tok)...)
+			if err := c.WriteRaw(b); err != nil {
+				return false, err
+			}
+			ok := true
+			for i := 0; i < 60; i++ {
+				r, err := c.Recv()
+				if err != nil {
+					return false, err
+				}
+				ok = ok && !r.IsErr()
+			}
+			return ok, nil
+		}},
+		{"http-get", func(tok string) (bool, error) {
+			c, err := dial()
+			if err != nil {
+				return false, err
+			}
+			defer c.Close()
+			fmt.Fprintf(c, "GET /SET+p+h1+STRING+%s HTTP/1.1\r\nHost: x\r\n\r\n", tok)
+			out := readAll(c)
+			return strings.Contains(out, `"ok":true`), nil
+		}},
+		{"http-post", func(tok string) (bool, error) {
+			c, err := dial()
+			if err != nil {
+				return false, err
+			}
+			defer c.Close()
+			body := "SET p h2 STRING " + tok
+			fmt.Fprintf(c, "POST / HTTP/1.1\r\nHost: x\r\nContent-Length: %d\r\n\r\n%s", len(body), body)
+			out := readAll(c)
+			return strings.Contains(out, `"ok":true`), nil
+		}},
+		{"native", func(tok string) (bool, error) {
+			c, err := dial()
+			if err != nil {
+				return false, err
+			}
+			defer c.Close()
+			cmd := "SET p n1 STRING " + tok
+			fmt.Fprintf(c, "$%d %s\r\n", len(cmd), cmd)
+			c.SetReadDeadline(time.Now().Add(10 * time.Second))
+			buf := make([]byte, 4096)
+			m, _ := c.Read(buf)
+			return strings.Contains(string(buf[:m]), `"ok":true`), nil
+		}},
+		{"telnet", func(tok string) (bool, error) {
+			c, err := dial()
+			if err != nil {
+				return false, err
+			}
+			defer c.Close()
+			fmt.Fprintf(c, "SET p t1 STRING %s\r\n", tok)
+			c.SetReadDeadline(time.Now().Add(10 * time.Second))
+			buf := make([]byte, 4096)
+			m, _ := c.Read(buf)
+			return strings.HasPrefix(string(buf[:m]), "+OK"), nil
+		}},
+		{"json-mode-set", respDo([][]string{{"OUTPUT", "json"}}, "SET", "p", "j1", "STRING", "@T")},
+		{"eval", respDo(nil, "EVAL", `return tile38.call('set','p','e1','string',ARGV[1])`, "0", "@T")},
+		{"evalna", respDo(nil, "EVALNA", `return tile38.call('set','p','e2','string',ARGV[1])`, "0", "@T")},
+		{"eval-two-writes", respDo(nil, "EVAL", `tile38.call('set','p','e3','string','x'); return tile38.call('set','p','e4','string',ARGV[1])`, "0", "@T")},
+		{"fset", respDo([][]string{{"SET", "p", "f1", "POINT", "1", "2"}}, "FSET", "p", "f1", "tokf", "@T")},
+		{"jset", respDo(nil, "JSET", "p", "js1", "t", "@T")},
+		{"sethook", respDo(nil, "SETHOOK", "hk@T", "http://127.0.0.1:9/x", "NEARBY", "p", "FENCE", "POINT", "1", "2", "100")},
+		{"setchan", respDo(nil, "SETCHAN", "ch@T", "NEARBY", "p", "FENCE", "POINT", "1", "2", "100")},
+		{"rename", respDo([][]string{{"SET", "rn", "a", "POINT", "1", "2"}}, "RENAME", "rn", "rn@T")},
+		{"expire", respDo([][]string{{"SET", "p", "x@T", "POINT", "1", "2"}}, "EXPIRE", "p", "x@T", "5000")},
+		{"del", respDo([][]string{{"SET", "p", "d@T", "POINT", "1", "2"}}, "DEL", "p", "d@T")},
+		{"value-5MiB", respDo(nil, "SET", "bigp", "b5", "STRING", big(5<<20)+"@T")},
+		{"value-9MiB", respDo(nil, "SET", "bigp", "b9", "STRING", big(9<<20)+"@T")},
+		{"pipeline-then-big", func(tok string) (bool, error) {
+			c, err := respc.Dial(s.Addr(), 5*time.Second)
+			if err != nil {
+				return false, err
+			}
+			defer c.Close()
+			c.Timeout = 60 * time.Second
+			var b []byte
+			for i := 0; i < 5; i++ {
+				b = append(b, respc.Encode("SET", "bigp", "m"+strconv.Itoa(i), "STRING", big(1<<20))...)
+			}
+			b = append(b, respc.Encode("SET", "bigp", "mlast", "STRING", tok)...)
+			if err := c.WriteRaw(b); err != nil {
+				return false, err
+			}
+			ok := true
+			for i := 0; i < 6; i++ {
+				r, err := c.Recv()
+				if err != nil {
+					return false, err
+				}
+				ok = ok && !r.IsErr()
+			}
+			return ok, nil
+		}},
+	}
+	for _, sh := range shapes {
+		tok := tokf()
+		acked, err := sh.run(tok)
+		if err != nil {
+			if !s.Alive() {
+				_, site := s.Crashed()
+				ctx.Inconclusive("server died in ack-then-file probe " + sh.name + ": " + site)
+				return
+			}
+			ctx.Inconclusive("ack-then-file probe " + sh.name + ": " + err.Error())
+			continue
+		}
+		ctx.Eval(1)
+		if !acked {
+			ctx.Count("ack_file_probe_not_acked:"+sh.name, 1)
+			continue
+		}
+		ctx.Count("ack_file_probes", 1)
+		if !inFile(tok) {
+			ctx.Violation("acked-not-in-file:"+sh.name, fmt.Sprintf("request shape %s: the success reply was received but the command (token %s) is not in appendonly.aof", sh.name, tok), map[string]any{"shape": sh.name})
+			continue
+		}
+		ctx.Distinct("ackfile|" + sh.name)
+	}
+}
+
 // Run is the C08 check.
 func Run(ctx *core.Ctx) {
 	ctx.Rule = "per perturbation pattern (sleep/yield actions at the four legal preemption points of the pre-write path: before the dirty-flag test, after the locked flush, after the flag clear, before the socket write): 2-16 connections issue unique-token writes (SET, JSET, EVAL; partly pipelined) against a verif build; the in-process monitor compares, at every socket write, the sender's last logged sequence number with the flushed sequence number; then writers keep going and the process is killed (-9) at a PRNG instant and every acknowledged token must be in appendonly.aof. non-trivial = a pattern run in which at least one reply of a logged command was sent after another goroutine had logged a later command (the interleaving in which a missing flush would show); distinct key = pattern"
@@ -277,4 +490,7 @@ func Run(ctx *core.Ctx) {
 		}(i, p)
 	}
 	wg.Wait()
+	for i := 0; i < ctx.Pick(2, 12); i++ {
+		ackThenFile(ctx, bin, i)
+	}
 }
